@@ -7,13 +7,13 @@ import random
 import time
 
 from vlib import (pair_walks, validate_split, InfraError, Raw, build, copy_specs, covering_walks, execution_slice, label_line, log, parse_counts,
-                  parse_export, pmap, read_lines, run, shortest_paths, tlc, validate, workdir, write_mc, HARNESS)
+                  parse_export, tlc_export, pmap, read_lines, run, shortest_paths, tlc, validate, workdir, write_mc, HARNESS)
 
 BIG = 2000000000
 
 SIZE_T = {'u8': ('uint8_t', 255), 'u16': ('uint16_t', 65535), 'u32': ('uint32_t', BIG), 'u64': ('uint64_t', BIG),
           'i8': ('signed char', 127), 'i32': ('int32_t', BIG)}
-ELEMS = {'TC': 'vh::ETC', 'TC1': 'vh::ETC1', 'TR': 'vh::ETR', 'NTR': 'vh::ENTR', 'NTRM': 'vh::ENTRM'}
+ELEMS = {'TC': 'vh::ETC', 'TC1': 'vh::ETC1', 'TR': 'vh::ETR', 'NTR': 'vh::ENTR', 'NTRM': 'vh::ENTRM', 'NTRA': 'vh::ENTRA'}
 ALLOCS = {'amcled': 1, 'stdlike': 2, 'withrealloc': 3, 'amc': 4, 'std': 5}
 
 
@@ -88,8 +88,7 @@ def mc_export(base, model, params, name):
            'ACTION_CONSTRAINT Export']
     write_mc(d, 'MC_gen', 'MCVec', defs, cfg)
     outp = os.path.join(d, 'export.txt')
-    rc, _, dt = tlc(d, 'MC_gen', 'MC_gen.cfg', workers=6, outfile=outp, timeout=3000, heap='6g')
-    edges, tail = parse_export(outp)
+    rc, edges, tail, dt = tlc_export(d, 'MC_gen', 'MC_gen.cfg', outp, workers=6, timeout=3000, heap='6g')
     counts = parse_counts(tail)
     if rc != 0 or counts is None or 'No error has been found' not in tail:
         raise InfraError('MODEL-ERROR: model checking of %s failed (rc=%d)\n%s' % (name, rc, tail[-3000:]))
@@ -146,9 +145,8 @@ def sim_behaviours(base, model, params, num, depth, seed, name):
            ' Its <- CIts', ' RLens <- CRLens', ' Ops <- COps', ' Alias = %s' % ('TRUE' if params.get('Alias', True) else 'FALSE'), ' Near = %d' % params.get('Near', 0), 'INVARIANT Inv', 'ACTION_CONSTRAINT ExportSim']
     write_mc(d, 'MC_sim', 'MCVec', defs, cfg)
     outp = os.path.join(d, 'export.txt')
-    rc, _, dt = tlc(d, 'MC_sim', 'MC_sim.cfg', workers=1, outfile=outp, timeout=3000, heap='4g',
-                    extra=['-simulate', 'num=%d' % num, '-depth', str(depth), '-seed', str(seed)])
-    edges, tail = parse_export(outp)
+    rc, edges, tail, dt = tlc_export(d, 'MC_sim', 'MC_sim.cfg', outp, workers=1, timeout=3000, heap='4g',
+                                     extra=['-simulate', 'num=%d' % num, '-depth', str(depth), '-seed', str(seed)])
     if 'Error' in tail and 'Invariant' in tail:
         raise InfraError('MODEL-ERROR: simulation of %s violated an invariant\n%s' % (name, tail[-2000:]))
     script = os.path.join(d, 'sim.script')
